@@ -174,6 +174,9 @@ theorem run_getFrame_ok {e : Nat} {st st1 : St} {f : Frame} (h : run (getFrame e
   | none => rw [hf] at h; simp at h
   | some f' => rw [hf] at h; simp at h; exact ⟨by rw [h.1], h.2.symm⟩
 
+theorem refTo_isRef (o : Nat) (name : String) (obj : Obj) : ∃ re rn, refTo o name obj = .ref re rn := by
+  cases obj <;> exact ⟨_, _, rfl⟩
+
 /-- `makeRef` only adds a reference entry (and bumps a miss counter) in the frame it was asked
 from — provided that frame holds no VALUE under the name, which is how `Get` and `SetNoChecks` call it -/
 theorem makeRef_go_sameValues (orig : Nat) (name : String) (fuel e : Nat) (st : St)
@@ -191,22 +194,25 @@ theorem makeRef_go_sameValues (orig : Nat) (name : String) (fuel e : Nat) (st : 
       split
       · exact ih o
       · next obj _ =>
-        have hr : ∃ re rn, (match obj with | .ref e' n' => Obj.ref e' n' | _ => Obj.ref o name) = .ref re rn := by
-          cases obj <;> exact ⟨_, _, rfl⟩
-        obtain ⟨re, rn, hr⟩ := hr
+        obtain ⟨re, rn, hr⟩ := refTo_isRef o name obj
+        dsimp only
         refine sv_bind (sv_modifyFrame _ _ _ ?_) fun _ st1 _ => ?_
         · intro f0 hf0
           refine ⟨fun m => ?_, rfl⟩
-          show lookupVal (setStore f0.store name
-            (match obj with | .ref e' n' => Obj.ref e' n' | _ => Obj.ref o name)) m = lookupVal f0.store m
+          show lookupVal (setStore f0.store name (refTo o name obj)) m = lookupVal f0.store m
           rw [hr]
           refine lookupVal_setStore_ref _ _ _ _ _ ?_
           unfold frameVal at hn; rw [hf0] at hn; exact hn
-        · dsimp only
-          repeat' split
-          all_goals first
-            | exact sv_pure _ _
-            | exact sv_bind (sv_modifyFrame _ _ _ fun f0 _ => ⟨fun _ => rfl, rfl⟩) fun _ _ _ => sv_pure _ _
+        · split
+          · refine sv_bind_ro (ReadOnly.getFrame _) fun _ _ => ?_
+            refine sv_bind_ro (ReadOnly.pure _) fun _ _ => ?_
+            split
+            · exact sv_bind (sv_modifyFrame _ _ _ fun f0 _ => ⟨fun _ => rfl, rfl⟩) fun _ _ _ => sv_pure _ _
+            · exact sv_pure _ _
+          · refine sv_bind_ro (ReadOnly.pure _) fun _ _ => ?_
+            split
+            · exact sv_bind (sv_modifyFrame _ _ _ fun f0 _ => ⟨fun _ => rfl, rfl⟩) fun _ _ _ => sv_pure _ _
+            · exact sv_pure _ _
 
 theorem makeRef_sameValues (orig : Nat) (name : String) (st : St) (hn : frameVal st orig name = none) :
     SameValues st (run (makeRef orig name) st).2 := by
@@ -241,7 +247,8 @@ theorem envGet_sameValues (e : Nat) (name : String) (st : St) :
                   | some _ => makeRef e name
               else do
                 let tgt ← refValue re rn
-                if (!isConstant rn && !isFuncObj tgt) = true then do
+                let fr ← getFrame re
+                if (!(isConstant rn && fr.depth == 0) && !isFuncObj tgt) = true then do
                     modifyFrame e fun f => { f with getMiss := f.getMiss + 1 }
                     pure (some (Obj.ref re rn))
                   else pure (some (Obj.ref re rn))
@@ -270,6 +277,7 @@ theorem envGet_sameValues (e : Nat) (name : String) (st : St) :
                 unfold frameVal lookupVal
                 simp [Array.getElem?_setIfInBounds, hlt, lookupStore_delStore_self]
           · refine sv_bind_ro (readOnly_refValue _ _) fun tgt _ => ?_
+            refine sv_bind_ro (ReadOnly.getFrame _) fun fr _ => ?_
             split
             · exact sv_bind (sv_modifyFrame _ _ _ fun f0 _ => ⟨fun _ => rfl, rfl⟩) fun _ _ _ => sv_pure _ _
             · exact sv_pure _ _
@@ -286,11 +294,13 @@ theorem envGet_sameValues (e : Nat) (name : String) (st : St) :
 
 /-! ### the constant check of `CreateOrSet` -/
 
-/-- `Equals(old, val)` is false in state `st1`: different object types (a Reference is not type-equal
-to a value), or the dereferenced values compare unequal -/
+/-- `sameValue(old, val)` is false in state `st1`: different object types (a Reference is not type-equal
+to a value), or the dereferenced values compare unequal, or they compare equal but differ in a type
+at some level (`[1,2]` against `[1.0,2]`) -/
 def NotEqualsIn (st1 : St) (old val : Obj) : Prop :=
   old.typeNum ≠ val.typeNum ∨
-  ∃ o v c, (run (valueOf old) st1).1 = .ok o ∧ (run (valueOf val) st1).1 = .ok v ∧ cmp o v = .ok c ∧ c ≠ 0
+  ∃ o v c, (run (valueOf old) st1).1 = .ok o ∧ (run (valueOf val) st1).1 = .ok v ∧ cmp o v = .ok c ∧
+    (c ≠ 0 ∨ sameTypes o v = false)
 
 theorem run_of_readOnly {x : M α} (hx : ReadOnly x) {st : St} {a : α} (h : (run x st).1 = .ok a) :
     run x st = (.ok a, st) := by
@@ -331,7 +341,10 @@ theorem createOrSet_constant_refused (e : Nat) (name : String) (val : Obj) (crea
       rw [run_bind, run_liftR, hcmp]
       dsimp only
       rw [run_bind, run_pure]
-      have : (c == 0) = false := by simp [hc0]
+      have : (c == 0 && sameTypes o v) = false := by
+        rcases hc0 with h | h
+        · simp [h]
+        · simp [h]
       simp only [this]
       exact ⟨rfl, hsv⟩
 
